@@ -81,6 +81,14 @@ CHECKS = {
             'import/export/function names.',
             'Trusts the sanitizers\' detection and the interpreter; sNaN immediates/arguments excluded (known finding under C02).',
             'DESIGN.md section 7 C11'),
+    'C10': ('F2 translator invariants (ASan+UBSan build of the unmodified w2c2, out of process)',
+            'fuzzing/PBT of the translator: generated valid modules from every mode + spec-suite corpus + names/stress shapes x '
+            'generated option sets, and exhaustive/sampled truncation of each file; oracle = exit status rule + AddressSanitizer/'
+            'UBSan silence',
+            'Generated-input search with the sanitizer-instrumented translator as system under test: valid modules must give exit '
+            '0 with no signal and no sanitizer report under any option set; every proper prefix must give exit 0 or a diagnosed '
+            'non-zero exit, never a memory error. Truncation is exhaustive for small files (every cut), sampled for larger ones.',
+            'Trusts ASan/UBSan detection; allocation-failure paths not injected; hang guard 120 s.', 'DESIGN.md section 7 C10'),
 }
 
 NOT_YET = {}
